@@ -99,8 +99,17 @@ loop:
 			}
 			last = act
 			if idle >= stallTicks {
-				o.stalled = true
-				break loop
+				// A deadlock is permanent, starvation on a loaded machine is not: before calling it a stall
+				// wait once more, much longer, for any sign of life (activity, pending reply, notification).
+				if r.confirmStall(s, o, last) {
+					o.stalled = true
+					break loop
+				}
+				if o.notified > 0 {
+					break loop
+				}
+				idle, last = 0, atomic.LoadInt64(&r.activity)
+				r.slowProgress++
 			}
 			if time.Since(start) > watchdog {
 				o.watchdog = true
@@ -126,6 +135,25 @@ loop:
 	}
 	r.endSession(s)
 	return s, o
+}
+
+// confirmStall waits up to stallConfirm for any progress after the stall rule fired. It returns true when the
+// session stayed completely silent (a real stall), false when it moved again or ended.
+func (r *rig) confirmStall(s *session, o *outcome, last int64) bool {
+	deadline := time.Now().Add(stallConfirm)
+	for time.Now().Before(deadline) {
+		select {
+		case err := <-s.notifyC:
+			o.notified++
+			o.err = err
+			return false
+		case <-time.After(driverTick):
+		}
+		if atomic.LoadInt64(&r.activity) != last || atomic.LoadInt64(&r.pending) != 0 {
+			return false
+		}
+	}
+	return true
 }
 
 func (r *rig) endSession(s *session) {
@@ -196,6 +224,10 @@ func (r *rig) evalSession(res *scResult, s *session, o *outcome, mustSucceed boo
 	defer r.mu.Unlock()
 	res.Evals++
 	res.count("sessions"+tag, 1)
+	if r.slowProgress > 0 {
+		res.count("stall rule fired but the session moved again (starvation, not judged)", r.slowProgress)
+		r.slowProgress = 0
+	}
 	for k, n := range s.faultsUsed {
 		if !strings.HasSuffix(k, ":ok") {
 			res.count("fault "+k, n)
@@ -235,6 +267,14 @@ func (r *rig) evalSession(res *scResult, s *session, o *outcome, mustSucceed boo
 			kind = "sync-start-not-accepted"
 		}
 		res.count("stalls", 1)
+		// like an honest session ending with an error, a stall is judged only if it shows in every attempt
+		// (first under full parallel load, then up to three times on an otherwise idle child)
+		o.disturbed = true
+		pre := len(res.Viols)
+		defer func() {
+			res.honestFail = append(res.honestFail, res.Viols[pre:]...)
+			res.Viols = res.Viols[:pre]
+		}()
 		if o.actorDead {
 			// keyed by the call site at which the actor goroutine is blocked, whatever scenario class led there
 			site := blockedSite(o.dump, fmt.Sprintf("%p", r.syn))
